@@ -132,20 +132,30 @@ Print Assumptions C01_raw_unaffected.
 Theorem C01_reopen_identity : forall s m,
   disk (fst (step (fst (step s OClose)) (OOpen m))) = disk s /\
   sess (fst (step (fst (step s OClose)) (OOpen m))) = Some m /\
-  (sess s <> None -> ro_origin s = None ->
+  (sess s <> None ->
    forall o, is_read_op o = true ->
      snd (step (fst (step (fst (step s OClose)) (OOpen m))) o) = snd (step s o)).
 Proof. exact reopen_identity. Qed.
 Print Assumptions C01_reopen_identity.
 
-(** where the model (= the code path into HDF5) has undefined behaviour: count / offset vectors
-    shorter than the data rank - and nowhere else in the slab selection *)
-Theorem C01_slab_ub_iff : forall sh off cnt,
-  is_ub (slab_sel sh off cnt) = true <->
-  ((32 <? List.length cnt)%nat || existsb (fun c => u64max <=? c) cnt = false) /\ off <> [] /\
-  ((List.length off < List.length sh)%nat \/ (cnt <> [] /\ (List.length cnt < List.length sh)%nat)).
-Proof. exact slab_ub_iff. Qed.
-Print Assumptions C01_slab_ub_iff.
+(** the slab selection never has undefined behaviour: count / offset vectors shorter than the data
+    rank are refused with InvalidRank, longer ones are legal (test-pinned) *)
+Theorem C01_slab_never_ub : forall sh off cnt, is_ub (slab_sel sh off cnt) = false.
+Proof. exact slab_never_ub. Qed.
+Print Assumptions C01_slab_never_ub.
+
+Theorem C01_slab_short_is_invalid_rank : forall sh off cnt,
+  off <> [] ->
+  ((List.length off < List.length sh)%nat \/ (cnt <> [] /\ (List.length cnt < List.length sh)%nat)) ->
+  slab_sel sh off cnt = Err "nix::InvalidRank"%string.
+Proof. exact slab_short_is_invalid_rank. Qed.
+Print Assumptions C01_slab_short_is_invalid_rank.
+
+(** a calibrated read requested as String is a plain refusal *)
+Theorem C01_calibrated_string_refused : forall a off cnt,
+  calibrated a = true -> io_read a TString off cnt = Err h5error.
+Proof. exact calibrated_string_refused. Qed.
+Print Assumptions C01_calibrated_string_refused.
 
 (** * Non-vacuity and witnesses (all by computation) *)
 
@@ -196,48 +206,26 @@ Example C01_unwritten_string_is_empty :
     [Some (ObsVals [VS ""; VS ""]); Some ObsUnit; Some (ObsVals [VS ""])].
 Proof. split; vm_compute; reflexivity. Qed.
 
-(** the rank-mismatch finding: a count / offset shorter than the rank is undefined behaviour;
-    a longer one is legal (test-pinned) *)
-Example C01_short_vectors_are_UB :
-  is_ub (slab_sel [2; 3] [1] [1]) = true /\ is_ub (slab_sel [2; 3] [1] []) = true /\
-  is_ub (slab_sel [2; 3] [1; 1] [1]) = true /\
+(** count / offset shorter than the rank are refused; longer ones are legal (test-pinned) *)
+Example C01_short_vectors_are_refused :
+  slab_sel [2; 3] [1] [1] = Err "nix::InvalidRank"%string /\ slab_sel [2; 3] [1] [] = Err "nix::InvalidRank"%string /\
+  slab_sel [2; 3] [1; 1] [1] = Err "nix::InvalidRank"%string /\
   slab_sel [5] [0] [1; 1] = Ok ([0], [1]) /\ slab_sel [2; 3] [] [6] = Ok ([0; 0], [2; 3]).
 Proof. vm_compute. repeat split. Qed.
 
 (** outside [op_dom], exhibited: appendData adds extent and count in 64 bits without a check - an
-    overflowing append *shrinks* the array ... *)
+    overflowing append *shrinks* the array *)
 Example C01_append_wrap_shrinks :
   a_shape (disk (fst (step (start TInt32 CNone [2; 0]) (OAppend 0 [two64 - 2; 0] [])))) = [0; 0] /\
   snd (step (start TInt32 CNone [2; 0]) (OAppend 0 [two64 - 2; 0] [])) = Ok ObsUnit /\
   spec_step (spec_start TInt32 [2; 0]) (OAppend 0 [two64 - 2; 0] []) = (spec_start TInt32 [2; 0], None).
 Proof. vm_compute. repeat split. Qed.
 
-(** ... and in a read-only session overwriting an existing origin throws, yet that session sees the
-    new value until the file is closed (nothing reaches the disk) *)
-Example C01_ro_origin_trace :
+(** a read-only session refuses to overwrite an existing origin and nothing changes *)
+Example C01_ro_origin_refused :
   let s := fst (run (start TInt32 CNone [1]) [OOrigin (Some (ofZ 2)); OClose; OOpen RO]) in
   let origin_parts a := match a_origin a with Some o => f64_parts o | None => None end in
   snd (step s (OOrigin (Some (ofZ 1)))) = Err h5error /\
-  origin_parts (view (fst (step s (OOrigin (Some (ofZ 1)))))) = f64_parts (ofZ 1) /\
-  origin_parts (disk (fst (step s (OOrigin (Some (ofZ 1)))))) = f64_parts (ofZ 2) /\
+  origin_parts (view (fst (step s (OOrigin (Some (ofZ 1)))))) = f64_parts (ofZ 2) /\
   f64_parts (ofZ 1) <> f64_parts (ofZ 2).
 Proof. vm_compute. repeat split. discriminate. Qed.
-
-(** the pointwise specification as laws: last covering write wins; an extent change keeps surviving
-    cells and zeroes exposed ones; never-written cells are zero / "" *)
-Theorem C01_spec_pointwise_laws : forall z h i,
-  (forall sh, cell_after z (ECreate sh :: h) i = z) /\
-  (forall off cnt vals, in_slab off cnt i = true ->
-     cell_after z (EWrite off cnt vals :: h) i = nth (Z.to_nat (ravel cnt (vsub i off))) vals z) /\
-  (forall off cnt vals, in_slab off cnt i = false -> cell_after z (EWrite off cnt vals :: h) i = cell_after z h i) /\
-  (forall sh, in_box (shape_after h) i = true -> cell_after z (EExtent sh :: h) i = cell_after z h i) /\
-  (forall sh, in_box (shape_after h) i = false -> cell_after z (EExtent sh :: h) i = z).
-Proof. exact spec_pointwise_laws. Qed.
-Print Assumptions C01_spec_pointwise_laws.
-
-Theorem C01_unwritten_is_zero : forall s h i,
-  R s h -> in_box (a_shape (disk s)) i = true ->
-  (forall off cnt vals, In (EWrite off cnt vals) (s_hist h) -> in_slab off cnt i = false) ->
-  get (disk s) i = zero_of (a_ty (disk s)).
-Proof. exact model_unwritten_is_zero. Qed.
-Print Assumptions C01_unwritten_is_zero.
